@@ -1,7 +1,7 @@
 """C09 — line numbers reported with tokens match the source (DESIGN 4.C09)."""
 from lib import machine as mc
 from lib.mir import AnchorMissing, callee_is
-from . import tokrules as tr
+from . import mirq, tokrules as tr
 from . import nf_common
 
 MANIFEST = {
@@ -91,7 +91,7 @@ def r09_2(ctx):
             if c is not None and c["path"].endswith("Cell::<T>::set") and t["a"]:
                 r = f.root(t["a"][0])
                 if r[0] == "local" and ".current_line" in r[2]:
-                    mw.add(f.name)
+                    mw |= mirq.reviewed_owners(ctx, f)  # (a helper extracted since the review writes on behalf of its callers)
     for w in sorted(mw | writers):
         ok = w in ("get_preprocessed_char", "data_state_simd_fast_path", "new")
         ctx.ob("R09.2", "line-writer/" + w, ok, "reviewed writer of current_line" if ok else "current_line is written outside get_preprocessed_char / the SIMD scan")
